@@ -16,10 +16,11 @@ def obligations(tier):
     return [
         Obl('wait.status', 'c21', 'props/C15/harness_wait.c', 'every abnormal wait status (non-zero exit code or signal) reaches reportInternalChildErr with the worker\'s file name; a clean exit reports nothing',
             'all 32-bit wait status values', backend='sat', timeout=900, mem_gb=8, unwind_max=40, max_rounds=30),
+    ] + ([] if tier == 'quick' else [
         Obl('eof.boundary.L%d' % L, 'c21', 'props/C15/harness_ipc.c', 'a worker that disappears at a message boundary: handleRead returns "child done", delivers nothing and increments the result (non-zero exit status); the messages before it are delivered',
             'one complete message of <= %d payload bytes then EOF, every read schedule' % L, defines={'L': L, 'MODE': 0}, backend='sat', timeout=3000, mem_gb=16, unwind_max=40, max_rounds=40,
             hints={'k_read.1': 9, 'll_read.0': 9, 'll_write.0': 6, 'sstr_sym.0': L + 1, 'check_delivery.0': L + 1, 'check_delivery.1': L + 1}),
-    ]
+    ])
 MANIFEST = {
     'text': 'Bounded model checking of the verbatim wait-status decision of ProcessExecutor::check (all 2^32 status values) and of the verbatim body of ProcessExecutor::handleRead at end-of-stream after complete messages: an abnormal worker exit is always reported with the worker\'s file name, and a vanished worker makes the parent finish that pipe with a non-zero result. Kernel-level: the select/waitpid loop bookkeeping is outside.',
     'note': 'Trusted: clang-14, ll2c.py (validated natively each run), pipe model, glibc wait-status encoding, CBMC 6.11 + MiniSat.',
